@@ -105,7 +105,10 @@ class Twin:
             R = self.Rp(rec["out"])
             if idx is None:
                 idx = list(range(R))
-            if rec["cls"] == "NNControlGaussianConditional":
+            if rec["cls"] in model.APPROX:
+                idx = [0]  # single-component by construction; their inherited slice is not meaningful
+                self.texec(t, i)
+            elif rec["cls"] == "NNControlGaussianConditional":
                 t["u"] = A(rec["u"])[norm(idx, R)]
                 self.texec(t, i)
             else:
@@ -201,7 +204,8 @@ class Twin:
                 t["idx"] = tidx
                 self.texec(t, i)
         elif op == "replace":
-            t["value"] = A(rec["value"])[cm[a]]
+            if self.wp.slots[a].cls not in model.APPROX:  # approximate conditionals are single-component; W, mu, ... have no batch axis
+                t["value"] = A(rec["value"])[cm[a]]
             self.texec(t, i)
             cm[rec["out"]] = list(cm[a])
         elif op == "truncate":
@@ -264,6 +268,9 @@ class Twin:
         op = rec["op"]
         if op == "obs":
             omap = self.omap
+            a_slot = self.wp.slots.get(rec["a"])
+            if a_slot is not None and a_slot.cls in model.APPROX and rec["name"] == "get_conditional_mu":
+                omap = None  # approximate conditionals return [N, Dy] without a component axis
             for k in sorted(k for k in self.wt.outputs if k[0] == i):
                 if k not in self.wp.outputs:
                     continue
@@ -273,6 +280,10 @@ class Twin:
                     continue
                 nm = k[1]
                 cmap = omap
+                if cmap is None:
+                    common.compare_value(f"C12.obs.{nm}", nm, got, want, step=i, output=nm)
+                    self.ncmp += 1
+                    continue
                 if (nm.startswith("attr.") or nm.startswith("dict.")):
                     cmap = self.cm[rec["a"]]
                 if want.shape[0] <= max(cmap):
@@ -283,11 +294,13 @@ class Twin:
         sid = rec.get("out", rec.get("a"))
         if sid not in self.wt.slots or sid not in self.wp.slots or sid in self.absent:
             return
+        if self.wp.slots[sid].tainted or self.wt.slots[sid].tainted:
+            return  # object of an open known finding: dropped from every comparison
         cmap = self.cm[sid]
         pobj, tobj = self.wp.slots[sid].obj, self.wt.slots[sid].obj
         # (the class may legitimately differ: slicing a diagonal / identity-diagonal conditional returns the
         #  equivalent non-diagonal class; equality of behaviour across classes is C15)
-        if type(pobj).__name__ == "NNControlGaussianConditional" or ref.kind_of(pobj) == "trunc":
+        if type(pobj).__name__ == "NNControlGaussianConditional" or ref.kind_of(pobj) == "trunc" or type(pobj).__name__ in model.APPROX:
             return
         # slicing commutes with the operation: op(obj).slice(cmap) vs op(obj.slice(idx))
         jnp = lib()["jnp"]
